@@ -210,7 +210,7 @@ class Grid2DCentroids(Contract):
     target = "geoh5py/objects/grid2d.py::Grid2D.centroids.fget"
     props = ("C17",)
     has_native = True
-    bounded_scope = "counts 1-4 x 1-4, cell sizes {0.5,1,-2}, rotations {0,30,90}, dips {0,45,90}, origins incl. default (sampled 200/2000); plus counts 1-12 with inexact cell sizes {0.1,0.3,0.7,0.001} on either axis (exhaustive)"
+    bounded_scope = "counts 1-4 x 1-4, cell sizes {0.5,1,-2}, rotations {0,30,90}, dips {0,45,90}, origins incl. default (sampled 200/2000); plus counts 1-12 with inexact cell sizes {0.1,0.3,0.7,0.001} on either axis (exhaustive); plus 12 cases computed after another grid of the same orientation was exported to an image, copied, clipped or had its centres array edited in place"
     attr_overrides = {
         "u_count": lambda I, obj: obj.fields["_u_count"], "v_count": lambda I, obj: obj.fields["_v_count"],
         "u_cell_size": lambda I, obj: obj.fields["_u_cell_size"], "v_cell_size": lambda I, obj: obj.fields["_v_cell_size"],
@@ -262,11 +262,31 @@ class Grid2DCentroids(Contract):
         for _ in range(200 if tier == "quick" else 2000):
             yield {"nU": rng.randint(1, 4), "nV": rng.randint(1, 4), "du": rng.choice([0.5, 1.0, -2.0]), "dv": rng.choice([0.5, 1.0, -2.0]),
                    "rotation": rng.choice([0.0, 30.0, 90.0]), "dip": rng.choice([0.0, 45.0, 90.0]), "origin": rng.choice([None, [5.0, -3.0, 1.0]])}
+        # the centres do not depend on what else was done with grids of the same orientation earlier in the process
+        for prelude in ("to_geoimage", "copy", "clip", "centroids-edited-in-place"):
+            for rot, dip in ((30.0, 45.0), (90.0, 90.0), (30.0, 0.0)):
+                yield {"nU": 3, "nV": 2, "du": 1.0, "dv": 0.5, "rotation": rot, "dip": dip, "origin": [5.0, -3.0, 1.0], "prelude": prelude}
 
     def native_check(self, case):
         from geoh5py.objects import Grid2D
         from geoh5py.workspace import Workspace
 
+        if case.get("prelude"):
+            with Workspace() as ws0:
+                g0 = Grid2D.create(ws0, u_count=5, v_count=6, u_cell_size=2.0, v_cell_size=1.0, rotation=case["rotation"], dip=case["dip"], origin=[1.0, 2.0, 3.0])
+                g0.add_data({"band": {"values": np.arange(30.0)}})
+                try:
+                    if case["prelude"] == "to_geoimage":
+                        g0.to_geoimage(["band"])
+                    elif case["prelude"] == "copy":
+                        g0.copy()
+                    elif case["prelude"] == "clip":
+                        g0.copy_from_extent(np.array([[0.0, 0.0], [6.0, 6.0]]))
+                    else:
+                        c0 = g0.centroids
+                        c0 += 1000.0  # a caller scribbling on the array it was handed
+                except Exception:
+                    pass  # the prelude's own success is not this contract's subject
         with Workspace() as ws:
             kw = dict(u_count=case["nU"], v_count=case["nV"], u_cell_size=case["du"], v_cell_size=case["dv"], rotation=case["rotation"], dip=case["dip"])
             if case["origin"] is not None:
@@ -294,6 +314,104 @@ class Grid2DCentroids(Contract):
 CONTRACTS = [OctreeCentroids, BlockModelCentroids, Grid2DCentroids]
 
 
+
+class CallerArraysNative(Contract):
+    """The centres (and a curve's segments / part labels) always belong to the geometry the object
+    *reports*: when the caller goes on using -- and edits in place -- the very arrays it handed to
+    create() or to a setter, either the object does not see the edit (it keeps its own copy) or its
+    derived arrays follow; it never reports new delimiters / records with the centres of the old ones."""
+    target = "geoh5py/objects/block_model.py::BlockModel.centroids.fget"
+    variant = "caller-keeps-its-arrays"
+    symbolic = False
+    has_native = True
+    props = ("C17",)
+    bounded_scope = "block model (3 delimiter arrays), octree (record array), drape model (layers, prisms), curve (cells, parts); arrays passed to create() or assigned later, of the stored dtype and of another dtype; centres read, caller's array edited in place, centres compared with those of a fresh object built from what the object now reports (exhaustive over the listed combinations)"
+
+    def native_cases(self, tier, rng):
+        for kind, attrs in (("blockmodel", ("u_cell_delimiters", "v_cell_delimiters", "z_cell_delimiters")), ("octree", ("octree_cells",)), ("drape", ("layers", "prisms")), ("curve", ("cells", "parts"))):
+            for attr in attrs:
+                for how in ("create", "setter"):
+                    for same_dtype in (True, False):
+                        yield {"kind": kind, "attr": attr, "how": how, "same_dtype": same_dtype}
+
+    @staticmethod
+    def _args(kind):
+        if kind == "blockmodel":
+            return {"u_cell_delimiters": np.array([0.0, 1.0, 3.0, 6.0]), "v_cell_delimiters": np.array([0.0, 1.0, 2.0]), "z_cell_delimiters": np.array([0.0, -1.0, -3.0])}
+        if kind == "octree":
+            rec = np.zeros(8, dtype=[("I", "<i4"), ("J", "<i4"), ("K", "<i4"), ("NCells", "<i4")])
+            k = 0
+            for z in range(2):
+                for y in range(2):
+                    for x in range(2):
+                        rec[k] = (x, y, z, 1)
+                        k += 1
+            return {"u_count": 2, "v_count": 2, "w_count": 2, "u_cell_size": 1.0, "v_cell_size": 1.0, "w_cell_size": 1.0, "octree_cells": rec}
+        if kind == "drape":
+            return {"layers": np.array([[0, 0, 9.0], [0, 1, 8.0], [1, 0, 9.5]]), "prisms": np.array([[0.0, 0.0, 10.0, 0, 2], [1.0, 0.0, 10.0, 2, 1]])}
+        return {"vertices": np.c_[np.arange(5.0), np.zeros(5), np.zeros(5)], "cells": np.array([[0, 1], [1, 2], [3, 4]], dtype="int32"), "parts": None}
+
+    def native_check(self, case):
+        from geoh5py.objects import BlockModel, Curve, DrapeModel, Octree
+        from geoh5py.workspace import Workspace
+
+        cls = {"blockmodel": BlockModel, "octree": Octree, "drape": DrapeModel, "curve": Curve}[case["kind"]]
+        derived = (lambda o: (np.asarray(o.cells).copy(), np.asarray(o.parts).copy())) if case["kind"] == "curve" else (lambda o: (np.asarray(o.centroids, dtype=float).copy(),))
+        args = self._args(case["kind"])
+        attr = case["attr"]
+        if case["kind"] == "curve" and attr == "parts":
+            args = {"vertices": args["vertices"], "parts": np.array([0, 0, 0, 1, 1], dtype="int32")}
+        elif case["kind"] == "curve":
+            args.pop("parts")
+        mine = args[attr]
+        if not case["same_dtype"]:
+            if mine.dtype.names:
+                return None  # record arrays have one accepted dtype
+            mine = mine.astype("float32" if mine.dtype.kind == "f" else "int64")
+        with Workspace() as ws:
+            try:
+                if case["how"] == "create":
+                    obj = cls.create(ws, **{**args, attr: mine})
+                else:
+                    obj = cls.create(ws, **{k: (v.copy() if isinstance(v, np.ndarray) else v) for k, v in args.items()})
+                    setattr(obj, attr, mine)
+                first = derived(obj)
+            except Exception as exc:
+                return None if case["how"] == "setter" else f"{type(exc).__name__}: {exc} ({case})"
+            # the caller goes on with its own array
+            if mine.dtype.names:
+                mine["NCells"][:] = 2
+            elif case["kind"] == "curve" and attr == "cells":
+                mine[:] = mine[::-1].copy()
+            elif case["kind"] == "curve":
+                mine[:] = 1 - mine
+            elif attr == "layers":
+                mine[:, 2] -= 5.0
+            elif attr == "prisms":
+                mine[:, 0] += 7.0
+            else:
+                mine *= 2.0
+            reported = {}
+            for k in args:
+                v = getattr(obj, k)
+                reported[k] = v.copy() if isinstance(v, np.ndarray) else v
+            now = derived(obj)
+            try:
+                if case["kind"] == "curve":
+                    fresh = cls.create(ws, vertices=reported["vertices"], **{attr: reported[attr]})
+                else:
+                    fresh = cls.create(ws, **reported)
+                want = derived(fresh)
+            except Exception as exc:
+                return f"the geometry now reported by the object cannot be built afresh: {type(exc).__name__}: {exc} ({case})"
+            for a, b in zip(now, want):
+                if a.shape != b.shape or not np.allclose(a, b):
+                    return f"after the caller edited the array it had passed as {attr} in place, the object reports the edited {attr} but its derived arrays are those of the old one ({case})"
+        return None
+
+
+CONTRACTS = CONTRACTS + [CallerArraysNative]
+
 # ---- derived caches are reset by the setters of what they depend on (C17: "the number of centres
 # always equals the number of cells", "part labels agree with connectivity" after any assignment) ----
 from contracts import setters as _setters  # noqa: E402
@@ -319,7 +437,7 @@ for _a, _c in (("cells", "_parts"), ("parts", "_cells")):
     RESET_CONTRACTS.append(_k)
 CURVE_RESETS = RESET_CONTRACTS[-2:]
 
-CONTRACTS = [OctreeCentroids, BlockModelCentroids, Grid2DCentroids] + RESET_CONTRACTS
+CONTRACTS = [OctreeCentroids, BlockModelCentroids, Grid2DCentroids, CallerArraysNative] + RESET_CONTRACTS
 
 
 class CurvePartsCells(Contract):
